@@ -405,25 +405,62 @@ func freshInputsRule(c *Ctx, rule string) {
 	}
 	// (b) Generate dominates the successful return of the state-creating functions that use the ephemeral for DH
 	genID := hopID("keys", "X25519KeyPair", "Generate")
-	for _, fnName := range []string{"(*Server).ReplayPQDuplexFromCookie", "(*Client).clientHandshakeLocked", "(*Server).handlePQClientRequestHidden"} {
-		fn := P.Func("transport", fnName)
-		if fn == nil {
+	// the functions that create a DH state whose ephemeral is then used for DH: the cookie replay, the
+	// client's handshake, and whichever function allocates the state handed to the hidden-request reader
+	// (its wrapper today; the caller when the wrapper is inlined)
+	allocsDH := func(f *ssa.Function) bool {
+		has := false
+		eachInstr(f, func(ins ssa.Instruction) {
+			if a, ok := ins.(*ssa.Alloc); ok && a.Heap {
+				if pt, ok := a.Type().Underlying().(*types.Pointer); ok && strings.HasSuffix(types.TypeString(pt.Elem(), nil), "transport.dhState") {
+					has = true
+				}
+			}
+		})
+		return has
+	}
+	var creators []*ssa.Function
+	for _, fnName := range []string{"(*Server).ReplayPQDuplexFromCookie", "(*Client).clientHandshakeLocked"} {
+		if fn := P.Func("transport", fnName); fn != nil {
+			creators = append(creators, fn)
+		} else {
 			c.Undecided(rule, "transport."+fnName, "function not found")
-			continue
 		}
+	}
+	liveT := P.Live()
+	for _, f := range P.ModuleFuncs("transport") {
+		if liveT[f] && f.Parent() == nil && allocsDH(f) && len(callSitesIn(f, false, hopID("transport", "Server", "readPQClientRequestHidden"))) > 0 {
+			creators = append(creators, f)
+		}
+	}
+	c.Floor(rule, "functions that allocate a handshake DH state", len(creators), 3)
+	for _, fn := range creators {
 		fs := newFailSet()
 		succ := 0
 		ok := walkAllOpts(c, rule, fn, PathOpts{MaxVisits: 2}, func(p *Path) {
 			if !isSuccess(p) {
 				return
 			}
-			succ++
+			// only paths that allocate a DH state (in fn itself) must generate its ephemeral afterwards
+			allocAt := -1
+			k := 0
 			gen := false
-			for _, pc := range callsOnPath(p) {
-				if calleeID(pc.call) == genID && hasField(pc.call.Call.Args[0], fEph) {
+			p.ForEach(func(i int, ins ssa.Instruction) bool {
+				k++
+				if a, ok := ins.(*ssa.Alloc); ok && a.Heap && a.Parent() == fn {
+					if pt, ok := a.Type().Underlying().(*types.Pointer); ok && strings.HasSuffix(types.TypeString(pt.Elem(), nil), "transport.dhState") {
+						allocAt = k
+					}
+				}
+				if call, ok := ins.(*ssa.Call); ok && allocAt >= 0 && calleeID(call) == genID && hasField(call.Call.Args[0], fEph) {
 					gen = true
 				}
+				return true
+			})
+			if allocAt < 0 {
+				return
 			}
+			succ++
 			if !gen {
 				fs.add("generate", "a handshake state is produced on a path that never generates its X25519 ephemeral (a zero or reused ephemeral makes the DH outputs, and with them the proof of key possession, predictable)", p.Exit(), p)
 			}
